@@ -21,7 +21,7 @@ LIB_SKIP = {"bit_stream_reader.c", "tree_decode.c", "lh_new_decoder.c",
             "pma_common.c", "lha_arch_win32.c"}
 
 WRAPS = ["malloc", "calloc", "realloc", "free", "strdup", "vasprintf",
-         "fopen", "fdopen", "fclose", "fileno", "fstat",
+         "fopen", "fdopen", "fclose", "fileno", "fstat", "fread",
          "mkdir", "open", "close", "unlink", "remove", "symlink", "chmod",
          "chown", "fchmod", "fchown", "utime", "stat", "lstat", "rmdir",
          "time", "exit", "abort"]
